@@ -8,5 +8,8 @@ Init == shape \in Shapes /\ WellFormed(shape) /\ step = 0
 Next == step = 0 /\ step' = 1 /\ UNCHANGED shape
 Spec == Init /\ [][Next]_vars
 Sane == step = 1 => Cardinality(Outcome(shape)) <= 2
-EmitInv == step = 1 => PrintT(<<"REPLAY", ToJson([shape |-> shape, codes |-> Outcome(shape)])>>)
+\* the scan as coded computes the declarative notion of "may be omitted by a caller", for every parameter list
+OptionalAgree == (step = 1 /\ shape.fam = "params") => \A i \in 1..Len(shape.ps) : OptionalAtCoded(shape.ps, i) <=> OptionalAtDecl(shape.ps, i)
+EmitInv == step = 1 => PrintT(<<"REPLAY", ToJson(IF shape.fam = "params" THEN [shape |-> shape, codes |-> Outcome(shape), sig |-> EmitSig(shape.ps)]
+                                                        ELSE [shape |-> shape, codes |-> Outcome(shape)])>>)
 =============================================================================
